@@ -255,7 +255,7 @@ func (r Relation) Join(r2 Relation, keys, leftOutput, rightOutput NamesSlice) Se
 			case ArrayItemAttr, BytesByteAttr, DictValueAttr, StringCharAttr:
 				sb := NewSetBuilder()
 				for i := rows.Range(); i.Next(); {
-					values := i.Values().project(r.p)
+					values := i.Values().project(projection)
 					sb.Add(NewTuple(NewAttr("@", values.get(at)), NewAttr(attrs[val], values.get(val))))
 				}
 				set, err := sb.Finish()
